@@ -353,6 +353,24 @@ let cmd_parflow () =
     done
   with End_of_file -> ()
 
+(* ---------------- toposort: "count | deps0 ; deps1 ; ..." -> order *)
+let cmd_topo () =
+  try
+    while true do
+      let line = input_line stdin in
+      match String.index_opt line '|' with
+      | None -> ()
+      | Some i ->
+        let count = int_of_string (String.trim (String.sub line 0 i)) in
+        let rest = String.sub line (i + 1) (String.length line - i - 1) in
+        let ds = Array.make (max count 1) [] in
+        List.iteri (fun k d -> if k < count then ds.(k) <- List.map nat (split_ws d)) (String.split_on_char ';' rest);
+        let deps n = let k = int_of_nat n in if k < count then ds.(k) else [] in
+        let order = toposort deps (nat_of_int (count + 1)) (nat_of_int count) in
+        print_endline (String.concat " " (List.map (fun n -> string_of_int (int_of_nat n)) order))
+    done
+  with End_of_file -> ()
+
 (* ---------------- emitter stacks: "L1 L2 ; V0 L3" -> receivers of each v_k, "1,2|1,2,3" *)
 let cmd_emstack () =
   try
@@ -379,6 +397,7 @@ let () =
   | _ :: "prologue" :: _ -> cmd_prologue ()
   | _ :: "emstack" :: _ -> cmd_emstack ()
   | _ :: "alias" :: _ -> cmd_alias ()
+  | _ :: "topo" :: _ -> cmd_topo ()
   | _ :: "parflow" :: _ -> cmd_parflow ()
   | _ :: "validate" :: _ -> cmd_validate ()
   | _ :: "sched-replay" :: _ -> cmd_sched_replay ()
